@@ -38,4 +38,25 @@ def obligations(tier):
               "never exceeds concurrency; without a free slot / writable channel / live spawner nothing changes; "
               "del_avail implies a free slot; del_canexit is false while attempts are in flight on a live channel",
         expect_witnesses=["started", "no_free_slot", "channel_busy"]))
+    # the command channel to the spawner: each delivery command arrives exactly once and intact, whatever the pipe does
+    # kills: comm_pos not reset by comm_write (stale offset); comm_pos += w dropped; `comm_pos[c] == len` -> `w == len`;
+    #        comm_write appending to a non-empty buffer and rewinding comm_pos (seed C04-r3 comm buffer);  `len - comm_pos[c]` -> `len`
+    quick = tier == "quick"
+    obls.append(Obl("comm_channel", "comm.c",
+        progs=[Prog("qmail-send.c", nomain=True, cut=["senderadd", "spawndied"])],
+        repo=STR + ["fmtqfn.c", "fmt_ulong.c", "fmt_str.c", "auto_split.c"], lib=["arena_stralloc.c"],
+        defines={"ARENA_CAP": 64, "ARENA_SLOTS": 8}, sysrename=["write"],
+        grid=[{"CH": c, "K": k} for c in (0, 1) for k in ([3] if quick else [3, 4])],
+        unwind=lambda p: {"vmain": 18, "vf_write": 33, "check_prefix": 33}, unwind_default=12, timeout=900,
+        functions=["qmail-send.c:comm_canwrite", "qmail-send.c:comm_write", "qmail-send.c:comm_selprep", "qmail-send.c:comm_do",
+                   "qmail-send.c:fnmake_split", "fmtqfn.c:fmtqfn"],
+        cuts=["senderadd -> appends a one-byte stand-in (VERP expansion: C10 senderadd)", "spawndied -> observed", "nomem, log* -> no-ops"],
+        stubs=["write(): accepts 1..len bytes (symbolic), or returns 0, or fails with EAGAIN or EPIPE - per step"],
+        assumes=["the caller hands a command over only while comm_canwrite() says yes (what del_start does)", "K steps, each symbolically "
+                 "'hand over a command (or not)' followed by one comm_selprep/comm_do pass; message number and sender concrete, recipient byte and delivery number symbolic"],
+        outside=["more than K steps", "commands longer than 9 bytes", "both channels pending at once"],
+        claim="C04: for every sequence of K hand-overs / write outcomes the bytes accepted by the spawner's pipe are a prefix of the "
+              "concatenation of the commands handed over (each once, intact, in order); the daemon asks for writability exactly while "
+              "a command is pending; EPIPE ends the channel",
+        expect_witnesses=["second_command_accepted", "short_write", "all_delivered", "pipe_broken"]))
     return obls
